@@ -449,6 +449,9 @@ func buildFrameRawIHL(f frameSpec) []byte {
 }
 
 func (st *rawState) oracle(v *vio) {
+	st.s.Probes["frames-accepted-by-reference"] += len(st.expect)
+	st.s.Probes["link-reads"] += st.linkReads
+	st.s.Probes["writes"] += len(st.writes)
 	// ---- write side: every WriteTo leaves as exactly one valid frame
 	for i, w := range st.writes {
 		if w.err != nil {
